@@ -40,6 +40,80 @@ def _cmp_pairs(t: ast.AST, pol: bool) -> List[Tuple[str, str, bool]]:
     return out
 
 
+def matcher_rule(ctx, res, rule: str) -> None:
+    """Shared with C17 (R17.5): the structural matcher enumerates every field and rejects on every dimension."""
+    idx = ctx.idx
+    # ---- R19.3
+    gc = idx.need_func("rope.refactor.similarfinder._ASTMatcher._get_children")
+    comps = [n for n in walk_local(gc.node) if isinstance(n, ast.ListComp)]
+    ok = False
+    why = "field enumeration is not a comprehension over ast.iter_fields"
+    if len(comps) == 1 and len(comps[0].generators) == 1:
+        g = comps[0].generators[0]
+        src = g.iter
+        uses_iter_fields = isinstance(src, ast.Call) and call_name(src) == "iter_fields"
+        filters = g.ifs
+        only_ctx = len(filters) == 1 and isinstance(filters[0], ast.UnaryOp) and isinstance(filters[0].op, ast.Not) \
+            and isinstance(filters[0].operand, ast.Call) and call_name(filters[0].operand) == "isinstance" \
+            and (dotted(filters[0].operand.args[1]) or "").endswith("expr_context")
+        no_filter = len(filters) == 0
+        ok = uses_iter_fields and (only_ctx or no_filter)
+        if not uses_iter_fields:
+            why = "children are not enumerated with ast.iter_fields (fields may be skipped)"
+        elif not ok:
+            why = f"children are filtered by more than expr_context: {[ast.unparse(f) for f in filters]}"
+    res.add(rule, "_get_children", ok, gc.where,
+            "children = all iter_fields values except expr_context" if ok else
+            f"_ASTMatcher._get_children: {why}: nodes differing only in a skipped field compare equal")
+    mn = idx.need_func("rope.refactor.similarfinder._ASTMatcher._match_nodes")
+    cfg = CFG(mn.node)
+    dims = {"class": False, "child-count": False, "list-length": False, "scalar": False, "recursive": 0}
+
+    def rejects(t, lab) -> bool:
+        """the `lab` edge of test t leads straight to `return False`"""
+        for b2, l in cfg.succ[t.id]:
+            if l == lab:
+                n2 = cfg.nodes[b2]
+                if n2.kind == "stmt" and isinstance(n2.ast, ast.Return) and isinstance(n2.ast.value, ast.Constant) \
+                        and n2.ast.value.value is False:
+                    return True
+        return False
+
+    nlen = 0
+    for t in cfg.nodes:
+        if t.kind != "test":
+            continue
+        s_ = ast.unparse(t.ast)
+        if isinstance(t.ast, ast.Compare) and isinstance(t.ast.ops[0], ast.NotEq) and rejects(t, "true"):
+            if "__class__" in s_:
+                dims["class"] = True
+            elif s_.count("type(") == 2:
+                pass  # scalar type identity, handled below
+            elif s_.count("len(") == 2:
+                nlen += 1
+            else:
+                dims["scalar"] = True
+        if isinstance(t.ast, ast.Call) and call_name(t.ast) == "_match_nodes" and rejects(t, "false"):
+            dims["recursive"] += 1
+    # scalar fields must be compared by type identity as well as by value (1 == 1.0 == True in Python)
+    dims["scalar-type"] = False
+    for t in cfg.nodes:
+        if t.kind == "test" and isinstance(t.ast, ast.Compare) and isinstance(t.ast.ops[0], (ast.IsNot, ast.NotEq)) and rejects(t, "true"):
+            l, r_ = t.ast.left, t.ast.comparators[0]
+            if all(isinstance(x, ast.Call) and call_name(x) == "type" and len(x.args) == 1 for x in (l, r_)) \
+                    and "__class__" not in ast.unparse(t.ast):
+                names = {ast.unparse(x.args[0]) for x in (l, r_)}
+                if len(names) == 2 and not any("expected" in n_ or n_ == "node" for n_ in names):
+                    dims["scalar-type"] = True
+    dims["child-count"] = nlen >= 1
+    dims["list-length"] = nlen >= 2
+    missing = [k for k, v in dims.items() if not v or (k == "recursive" and v < 2)]
+    res.add(rule, "_match_nodes|rejecting-exits", not missing, mn.where,
+            "rejecting exits exist for class, child count, list length, scalar type identity, scalar value and both recursive comparisons" if not missing else
+            f"_ASTMatcher._match_nodes has no rejecting exit for: {missing} -- structurally different code is reported as a match",
+            dims={k: (v if not isinstance(v, bool) else v) for k, v in dims.items()})
+
+
 def check(ctx, res) -> None:
     idx = ctx.idx
     gm = idx.need_func("rope.refactor.similarfinder.RawSimilarFinder.get_matches")
@@ -121,75 +195,7 @@ def check(ctx, res) -> None:
             f"_match_wildcard line {bad[0][0].lineno if bad else mw.node.lineno}: {bad[0][1] if bad else 'bound/unbound paths not found'} "
             "-- equal wildcards may then bind different code")
 
-    # ---- R19.3
-    gc = idx.need_func("rope.refactor.similarfinder._ASTMatcher._get_children")
-    comps = [n for n in walk_local(gc.node) if isinstance(n, ast.ListComp)]
-    ok = False
-    why = "field enumeration is not a comprehension over ast.iter_fields"
-    if len(comps) == 1 and len(comps[0].generators) == 1:
-        g = comps[0].generators[0]
-        src = g.iter
-        uses_iter_fields = isinstance(src, ast.Call) and call_name(src) == "iter_fields"
-        filters = g.ifs
-        only_ctx = len(filters) == 1 and isinstance(filters[0], ast.UnaryOp) and isinstance(filters[0].op, ast.Not) \
-            and isinstance(filters[0].operand, ast.Call) and call_name(filters[0].operand) == "isinstance" \
-            and (dotted(filters[0].operand.args[1]) or "").endswith("expr_context")
-        no_filter = len(filters) == 0
-        ok = uses_iter_fields and (only_ctx or no_filter)
-        if not uses_iter_fields:
-            why = "children are not enumerated with ast.iter_fields (fields may be skipped)"
-        elif not ok:
-            why = f"children are filtered by more than expr_context: {[ast.unparse(f) for f in filters]}"
-    res.add("R19.3", "_get_children", ok, gc.where,
-            "children = all iter_fields values except expr_context" if ok else
-            f"_ASTMatcher._get_children: {why}: nodes differing only in a skipped field compare equal")
-    mn = idx.need_func("rope.refactor.similarfinder._ASTMatcher._match_nodes")
-    cfg = CFG(mn.node)
-    dims = {"class": False, "child-count": False, "list-length": False, "scalar": False, "recursive": 0}
-
-    def rejects(t, lab) -> bool:
-        """the `lab` edge of test t leads straight to `return False`"""
-        for b2, l in cfg.succ[t.id]:
-            if l == lab:
-                n2 = cfg.nodes[b2]
-                if n2.kind == "stmt" and isinstance(n2.ast, ast.Return) and isinstance(n2.ast.value, ast.Constant) \
-                        and n2.ast.value.value is False:
-                    return True
-        return False
-
-    nlen = 0
-    for t in cfg.nodes:
-        if t.kind != "test":
-            continue
-        s_ = ast.unparse(t.ast)
-        if isinstance(t.ast, ast.Compare) and isinstance(t.ast.ops[0], ast.NotEq) and rejects(t, "true"):
-            if "__class__" in s_:
-                dims["class"] = True
-            elif s_.count("type(") == 2:
-                pass  # scalar type identity, handled below
-            elif s_.count("len(") == 2:
-                nlen += 1
-            else:
-                dims["scalar"] = True
-        if isinstance(t.ast, ast.Call) and call_name(t.ast) == "_match_nodes" and rejects(t, "false"):
-            dims["recursive"] += 1
-    # scalar fields must be compared by type identity as well as by value (1 == 1.0 == True in Python)
-    dims["scalar-type"] = False
-    for t in cfg.nodes:
-        if t.kind == "test" and isinstance(t.ast, ast.Compare) and isinstance(t.ast.ops[0], (ast.IsNot, ast.NotEq)) and rejects(t, "true"):
-            l, r_ = t.ast.left, t.ast.comparators[0]
-            if all(isinstance(x, ast.Call) and call_name(x) == "type" and len(x.args) == 1 for x in (l, r_)) \
-                    and "__class__" not in ast.unparse(t.ast):
-                names = {ast.unparse(x.args[0]) for x in (l, r_)}
-                if len(names) == 2 and not any("expected" in n_ or n_ == "node" for n_ in names):
-                    dims["scalar-type"] = True
-    dims["child-count"] = nlen >= 1
-    dims["list-length"] = nlen >= 2
-    missing = [k for k, v in dims.items() if not v or (k == "recursive" and v < 2)]
-    res.add("R19.3", "_match_nodes|rejecting-exits", not missing, mn.where,
-            "rejecting exits exist for class, child count, list length, scalar type identity, scalar value and both recursive comparisons" if not missing else
-            f"_ASTMatcher._match_nodes has no rejecting exit for: {missing} -- structurally different code is reported as a match",
-            dims={k: (v if not isinstance(v, bool) else v) for k, v in dims.items()})
+    matcher_rule(ctx, res, "R19.3")
     # the generic 'return expected == node' for non-AST values and final accept
     # ---- R19.4
     gch = idx.need_func("rope.refactor.restructure._ChangeComputer.get_changed")
